@@ -1,2 +1,183 @@
-/- placeholder: the C17 driver is not built yet -/
-def main : IO Unit := IO.println "C17: driver not built yet"
+/- C17 line-protocol driver: prints `model <TAB> spec` for each case line.
+   A case is a history: `new N=<bits> w=<bs|8|16|32|64>` followed by operations on the objects
+   `o=0..3`.  Every mutating line prints the full observable state of its target object
+   (`s=` bit `N-1` first through `operator[] const`/`test`, `c=` count, `f=` all/any/none). -/
+import Tetl.Proto
+import Tetl.C17.Model
+import Tetl.C17.Spec
+namespace Tetl.C17.Driver
+open Tetl Tetl.Proto
+
+structure St where
+  N : Nat
+  k : Nat
+  bs : Bool
+  m : Except Err (Array (Words k))     -- the four live objects of the model
+  s : Array (Array Bool)               -- the four live objects of the spec, as tables of their bits [0, N)
+
+def NOBJ : Nat := 4
+
+def St.initial : St := { N := 1, k := 6, bs := true, m := .ok #[], s := #[] }
+
+/-- the store functions handed to `step` are rebuilt from tables on every line, and the results are
+    read back into tables (strictly), so that closures never pile up along a history -/
+def mStore {k : Nat} (N : Nat) (a : Array (Words k)) : Store k :=
+  fun j => if h : j < a.size then a[j] else C17.init N k
+
+def mTable {k : Nat} (st : Store k) : Array (Words k) := (Array.range NOBJ).map st
+
+/-- a spec object given by a table of its bits `[0, N)`.  The table is computed (strictly) by the
+    caller, so closures do not pile up along a history. -/
+def ofTable (a : Array Bool) : Spec.Bits := fun i => if h : i < a.size then a[i] else false
+
+def sStore (t : Array (Array Bool)) : Spec.Store :=
+  fun j => if h : j < t.size then ofTable t[j] else Spec.zero
+
+def sTable (N : Nat) (st : Spec.Store) : Array (Array Bool) :=
+  (Array.range NOBJ).map fun j => (Array.range N).map (st j)
+
+def fmtE {α : Type} (f : α → String) : Except Err α → String
+  | .ok a => f a
+  | .error e => e.fmt
+
+def bitsStr (l : List Bool) : String := String.ofList (l.map fun b => if b then '1' else '0')
+
+/-- model dump of one object -/
+def dumpM {k : Nat} (N : Nat) (bs : Bool) (ws : Words k) : Except Err String := do
+  let bits ← (List.range N).reverse.mapM (fun i => if bs then test N ws i else getConst N ws i)
+  let a ← all N ws
+  .ok s!"s={bitsStr bits} c={count ws} f={fmtBool a}{fmtBool (any ws)}{fmtBool (none ws)}"
+
+def dumpS (N : Nat) (b : Spec.Bits) : String :=
+  let bits := (List.range N).reverse.map (Spec.test b)
+  s!"s={bitsStr bits} c={Spec.count N b} f={fmtBool (Spec.all N b)}{fmtBool (Spec.any N b)}{fmtBool (Spec.none N b)}"
+
+def boolArg (l : Line) (k : String) : Option Bool := (l.nat? k).map (· != 0)
+
+/-- protocol line → operation of the history -/
+def parseOp (l : Line) : Option Op :=
+  match l.op with
+  | "set_all" => (l.nat? "o").map .setAll
+  | "reset_all" => (l.nat? "o").map .resetAll
+  | "flip_all" => (l.nat? "o").map .flipAll
+  | "set" => do pure (.set (← l.nat? "o") (← l.nat? "pos") (← boolArg l "v"))
+  | "reset" => do pure (.reset (← l.nat? "o") (← l.nat? "pos"))
+  | "flip" => do pure (.flip (← l.nat? "o") (← l.nat? "pos"))
+  | "ref_assign" => do pure (.refAssign (← l.nat? "o") (← l.nat? "pos") (← boolArg l "v"))
+  | "ref_flip" => do pure (.refFlip (← l.nat? "o") (← l.nat? "pos"))
+  | "ref_copy" => do pure (.refCopy (← l.nat? "o") (← l.nat? "pos") (← l.nat? "src") (← l.nat? "spos"))
+  | "and" => do pure (.andA (← l.nat? "o") (← l.nat? "rhs"))
+  | "or" => do pure (.orA (← l.nat? "o") (← l.nat? "rhs"))
+  | "xor" => do pure (.xorA (← l.nat? "o") (← l.nat? "rhs"))
+  | "band" => do pure (.band (← l.nat? "o") (← l.nat? "a") (← l.nat? "b"))
+  | "bor" => do pure (.bor (← l.nat? "o") (← l.nat? "a") (← l.nat? "b"))
+  | "bxor" => do pure (.bxor (← l.nat? "o") (← l.nat? "a") (← l.nat? "b"))
+  | "assign" => do pure (.assign (← l.nat? "o") (← l.nat? "src"))
+  | "not" => do pure (.not (← l.nat? "o") (← l.nat? "src"))
+  | "from_ull" => do pure (.fromUll (← l.nat? "o") ((← l.nat? "hi") * 2 ^ 32 + (← l.nat? "lo")))
+  | "from_str" => do
+    let n ← match l.pos? "n" with | some Option.none => some NPOS | some (some n) => some n | Option.none => Option.none
+    let str ← l.natList? "s"
+    let zeroCh := (l.nat? "zero").getD 48
+    let oneCh := (l.nat? "one").getD 49
+    match (l.str? "ov").getD "sv" with
+    | "sv" => pure (.fromStr (← l.nat? "o") str (← l.nat? "pos") n zeroCh oneCh)
+    | "cstr" => pure (.fromCstr (← l.nat? "o") str n zeroCh oneCh)
+    | _ => Option.none
+  | _ => Option.none
+
+def opTarget : Op → Nat
+  | .setAll o | .resetAll o | .flipAll o | .set o _ _ | .reset o _ | .flip o _ | .refAssign o _ _
+  | .refFlip o _ | .refCopy o _ _ _ | .andA o _ | .orA o _ | .xorA o _ | .band o _ _ | .bor o _ _
+  | .bxor o _ _ | .assign o _ | .not o _ | .fromUll o _ | .fromStr o _ _ _ _ _ | .fromCstr o _ _ _ _ => o
+
+/-- members that exist on `etl::bitset` only -/
+def bsOnly : Op → Bool
+  | .not _ _ | .fromStr _ _ _ _ _ _ | .fromCstr _ _ _ _ _ => true
+  | _ => false
+
+def step (st : St) (l : Line) : St × String :=
+  let bad := (st, "bad-op\tbad-op")
+  let out (m s : String) := m ++ "\t" ++ s
+  match l.op with
+  | "new" =>
+    match l.nat? "N", l.get? "w" with
+    | some N, some wv =>
+      let kk : Option (Nat × Bool) := match wv with
+        | .str "bs" => some (6, true)
+        | .int 8 => some (3, false) | .int 16 => some (4, false)
+        | .int 32 => some (5, false) | .int 64 => some (6, false)
+        | _ => Option.none
+      match kk with
+      | some (k, bs) =>
+        if N = 0 then bad else
+        let st' : St := { N := N, k := k, bs := bs, m := .ok (mTable (Store.init N k)), s := sTable N Spec.Store.init }
+        (st', out (fmtE id (dumpM N bs (Store.init N k 0))) (dumpS N (Spec.Store.init 0)))
+      | Option.none => bad
+    | _, _ => bad
+  | "probe" =>
+    match l.nat? "o", l.nat? "pos" with
+    | some o, some pos =>
+      let m := do
+        let ms ← st.m
+        let ws := mStore st.N ms o
+        let a ← if st.bs then test st.N ws pos else uncheckedTest st.N ws pos
+        let b ← getConst st.N ws pos
+        let c ← refGet st.N ws pos
+        let d ← refNot st.N ws pos
+        pure (bitsStr [a, b, c, d])
+      let b := Spec.test (sStore st.s o) pos
+      (st, out (fmtE id m) (bitsStr [b, b, b, !b]))
+    | _, _ => bad
+  | "eq" =>
+    match l.nat? "o", l.nat? "rhs" with
+    | some o, some rhs =>
+      let m := do
+        let ms ← st.m
+        pure (fmtBool (eq (mStore st.N ms o) (mStore st.N ms rhs)))
+      (st, out (fmtE id m) (fmtBool (Spec.eq st.N (sStore st.s o) (sStore st.s rhs))))
+    | _, _ => bad
+  | "to_ullong" | "to_ulong" =>
+    if !st.bs then bad else
+    match l.nat? "o" with
+    | some o =>
+      let m := match st.m with
+        | .error e => e.fmt
+        | .ok ms => match toUnsigned st.N (mStore st.N ms o) with
+          | Option.none => "absent"
+          | some r => fmtE toString r
+      let v := Spec.toNat st.N (sStore st.s o)
+      -- [bitset.members]: throws overflow_error if the value does not fit
+      let s := if v < 2 ^ 64 then toString v else "overflow"
+      (st, out m s)
+    | Option.none => bad
+  | "to_string" =>
+    if !st.bs then bad else
+    match l.nat? "o", l.nat? "cap" with
+    | some o, some cap =>
+      let zeroCh := (l.nat? "zero").getD 48
+      let oneCh := (l.nat? "one").getD 49
+      let m := do
+        let ms ← st.m
+        C17.toStr st.N (mStore st.N ms o) zeroCh oneCh cap
+      (st, out (fmtE fmtNatList m) (fmtNatList (Spec.toStr st.N (sStore st.s o) zeroCh oneCh)))
+    | _, _ => bad
+  | _ =>
+    match parseOp l with
+    | Option.none => bad
+    | some op =>
+      if bsOnly op && !st.bs then bad else
+      let o := opTarget op
+      let m' := do
+        let ms ← st.m
+        let r ← C17.step st.N (mStore st.N ms) op
+        pure (mTable r)
+      let s' := sTable st.N (Spec.step st.N (sStore st.s) op)
+      let mo := do
+        let ms ← m'
+        dumpM st.N st.bs (mStore st.N ms o)
+      ({ st with m := m', s := s' }, out (fmtE (fun d => "ok " ++ d) mo) ("ok " ++ dumpS st.N (sStore s' o)))
+
+end Tetl.C17.Driver
+
+def main : IO Unit := Tetl.Proto.runDriver Tetl.C17.Driver.St.initial Tetl.C17.Driver.step
